@@ -66,6 +66,16 @@ class FuncRef:
         self.attrs: Dict[str, Any] = {}
 
 
+class PyModel:
+    """A modelled callable handed into the evaluation by a rule (what an external or factory-made function does)."""
+
+    def __init__(self, fn: Callable[[List[Any], Dict[str, Any]], Any], label: str = "model") -> None:
+        self.fn, self.label = fn, label
+
+    def __repr__(self) -> str:
+        return f"<{self.label}>"
+
+
 class Instance:
     def __init__(self, cls: ClassInfo, args: List[Any], kwargs: Dict[str, Any]) -> None:
         self.cls = cls
@@ -465,6 +475,18 @@ class MiniEval:
                     out[self.eval(fn, k, env, depth)] = self.eval(fn, v, env, depth)
             return out
         if isinstance(expr, ast.JoinedStr):
+            pieces: List[Any] = []
+            for part in expr.values:
+                if isinstance(part, ast.FormattedValue):
+                    try:
+                        val_p = self.eval(fn, part.value, env, depth)
+                    except Unevaluable:
+                        val_p = Sym("?")  # message text only
+                    pieces.append(val_p if part.conversion == -1 and part.format_spec is None else Sym("?"))
+                elif isinstance(part, ast.Constant):
+                    pieces.append(part.value)
+            if all(isinstance(p, (str, int)) and not isinstance(p, bool) for p in pieces):
+                return "".join(str(p) for p in pieces)  # f"{PREFIX}.1.0" over constants: the string itself
             return Sym("formatted-string")
         if isinstance(expr, ast.UnaryOp):
             val = self.eval(fn, expr.operand, env, depth)
@@ -571,6 +593,8 @@ class MiniEval:
         return store[key]
 
     def apply(self, fobj: Any, args: List[Any], depth: int) -> Any:
+        if isinstance(fobj, PyModel):
+            return fobj.fn(list(args), {})
         if isinstance(fobj, FuncRef):
             lead = [fobj.bound_self] if isinstance(fobj.bound_self, Instance) and fobj.fn.cls is not None else []
             return self.call_function(fobj.fn, lead + args, {}, depth + 1, closure=fobj.closure)
@@ -651,11 +675,20 @@ class MiniEval:
         if got is not None and got.kind == "func":
             return FuncRef(got.target)
         if got is not None and got.kind == "value" and got.module is not None:
+            # module-level objects live as long as the evaluator: a dict / list / set at module level that a function
+            # fills (a cache, a registry) is the same object at the next call
+            store = self.__dict__.setdefault("_module_values", {})
+            gkey = (got.module.name, expr.id)
+            if gkey in store:
+                return store[gkey]
             pseudo = FuncInfo(got.module, "<module>", fn.node)
             try:
-                return self.eval(pseudo, got.target, {}, 0)
+                val_m = self.eval(pseudo, got.target, {}, 0)
             except Unevaluable:
                 return Sym(f"module-value:{expr.id}")  # a logger, a TypeVar, ...
+            if isinstance(val_m, (dict, list, set)):
+                store[gkey] = val_m
+            return val_m
         if got is not None and got.kind not in ("func", "value", "class"):
             return Sym(f"ext:{expr.id}")  # a name imported from outside the analysed universe (datetime.timedelta, ...)
         cur = fn.parent
@@ -701,6 +734,8 @@ class MiniEval:
                 return FuncRef(meth, bound_self=base)
             if expr.attr == "__name__":
                 return base.cls.name
+            if expr.attr == "__mro__":
+                return tuple(ClassRef(k) for k in self.ctx.r.mro(base.cls))
             got_attr = self.class_attribute(base.cls, expr.attr, depth)
             if got_attr is not NotImplemented:
                 return got_attr
@@ -890,6 +925,8 @@ class MiniEval:
                 except Exception as exc:  # pylint: disable=broad-except
                     raise Unevaluable(f"{name}(): {exc}") from exc
         target = self.eval(fn, func, env, depth)
+        if isinstance(target, PyModel):
+            return target.fn(list(args), dict(kwargs))
         if isinstance(target, tuple) and len(target) == 2 and target[0] == "lambda":
             return self.apply(target, args, depth)
         if isinstance(target, tuple) and len(target) == 3 and target[0] == "super-method":
@@ -942,6 +979,16 @@ class MiniEval:
                 got = self.construct(target.cls, args, kwargs)
                 if got is not NotImplemented:
                     return got
+            if target.cls.key == "x690.types:ObjectIdentifier" and not kwargs and len(args) <= 1:
+                # modelled OIDs: ObjectIdentifier("1.3.6.1") / ObjectIdentifier() / ObjectIdentifier(<oid>)
+                if not args:
+                    return OidVal(())
+                if isinstance(args[0], OidVal):
+                    return args[0]
+                if isinstance(args[0], str) and all(part.isdigit() for part in args[0].strip(".").split(".") if part != "") :
+                    return OidVal(tuple(int(part) for part in args[0].strip(".").split(".") if part != ""))
+                if isinstance(args[0], (tuple, list)) and all(isinstance(x, int) for x in args[0]):
+                    return OidVal(tuple(args[0]))
             if any(ast.unparse(b).split(".")[-1] == "TypedDict" for klass in self.ctx.r.mro(target.cls) for b in klass.node.bases):
                 out_td: Dict[Any, Any] = {}
                 for a in args:
